@@ -152,6 +152,16 @@ func genC06(t *rapid.T) C06Case {
 				}
 			}
 			lab["both-include-files-define-w"] = true
+			if rapid.IntRange(0, 2).Draw(t, "xownw") == 0 {
+				// the exclude file defines `w` itself: inside that file the name means what the file says
+				for _, dir := range []string{"exclude/", "include/"} {
+					k := dir + strings.TrimSuffix(excl[0], ".ra") + ".ra"
+					if l, ok := p.Files[k]; ok {
+						p.Files[k] = append([]ragen.Line{{K: ragen.KDefine, Name: "w", T: vals[2]}}, l...)
+					}
+				}
+				lab["exclude-file-defines-w-itself"] = true
+			}
 		}
 		main = append(main, ragen.Line{K: ragen.KExcept, File: "g", Excl: excl})
 		lab["second-directive-same-exclude-files"] = true
